@@ -18,6 +18,9 @@ lookup3 `hashlittle` (Model/Jenkins, = Spec/Lookup3 by Props/C09).
   begin cache hooks=<0|1> skip=<n> layers=<n>
   putv k c v | putl i k v | corrupt i k v | getv k <c|none> | has k
   caput c v | cacorrupt c v | caget c
+  getvf k c <m> <alt>           get_with_validation (memory + disk) while the disk layer's backing file is
+                                 rewritten with `alt` during the call (m = 0: before its first read of the
+                                 file, m = 1, 2: after its m-th read) → outcome and `dreads=<reads of the file>`
   cagetf c <n> <put|once> <alt|none>
                                  get_validated while the backing store answers `alt` (none = entry gone) at
                                  the n-th read of this call (`put`: rewritten just before that read and from
@@ -51,6 +54,7 @@ structure St where
   last : Bytes := []          -- last evaluated input
   lastOk : Bool := false      -- enc: the last evaluated table was accepted
   lastV1 : String := "none"   -- v1: the `v1ck` answer of the last evaluated input
+  memo : List (Bytes × Bytes) := []  -- (hashed region of the BASE artifact, its digest): see `memoH`
   cfg : Cache.Cfg := ⟨true, 0⟩
   layers : List Cache.Layer := []
   ca : Cache.Layer := []
@@ -100,15 +104,42 @@ def evalArtifact (kind : String) (param : Nat) (d : Bytes) : String :=
     | .pass _ _ => "pass"
   | _ => "bad-op"
 
+/-- `H` with a table of digests computed by `H` itself for the hashed regions of the base artifact
+(the pages of an encoding table, the message of a V1 response): a mutation that leaves a region
+untouched (every substitution inside a stored checksum, every flip in another page) does not pay
+for hashing it again. Extensionally `H`: the table holds only pairs `(b, H b)` and is searched by
+full equality. -/
+def memoH (memo : List (Bytes × Bytes)) (H : Hash) : Hash := fun b =>
+  match memo.find? (fun p => p.1 == b) with
+  | some p => p.2
+  | none => H b
+
+/-- the table for a base artifact. -/
+def memoOf (kind : String) (d : Bytes) : List (Bytes × Bytes) :=
+  match kind with
+  | "enc" =>
+    match Enc.readHeader d with
+    | .ok h =>
+      if !Enc.headerOk h || d.length < Enc.dataSize h then [] else
+      let L := Enc.layout h
+      ((Enc.pageMap d L.ckIndex L.ckPages (h.ckKb * 1024) h.ckCount) ++
+        (Enc.pageMap d L.ekIndex L.ekPages (h.ekKb * 1024) h.ekCount)).map fun (_, page) => (page, md5H page)
+    | .error _ => []
+  | "v1" =>
+    match V1.extract d with
+    | (m, some _) => [(m, shaH m)]
+    | _ => []
+  | _ => []
+
 /-- `encmap`: what an accepted encoding table looks like through the model's layout (`ok` = the
 verdict of `Enc.parse` on `d`, computed once by the line before). -/
-def encMap (ok : Bool) (d : Bytes) : String :=
+def encMap (memo : List (Bytes × Bytes)) (ok : Bool) (d : Bytes) : String :=
   match ok, Enc.readHeader d with
   | true, .ok h =>
     let L := Enc.layout h
     let one (idxOff pagesOff ps n : Nat) (acc : Nat) : Nat :=
       ((List.range n).zip (Enc.pageMap d idxOff pagesOff ps n)).foldl (fun a (i, (sum, page)) =>
-        fold32 a (bytesNat (slice d (idxOff + 32 * i) 16) ++ bytesNat sum ++ bytesNat (md5H page))) acc
+        fold32 a (bytesNat (slice d (idxOff + 32 * i) 16) ++ bytesNat sum ++ bytesNat (memoH memo md5H page))) acc
     let x := one L.ekIndex L.ekPages (h.ekKb * 1024) h.ekCount (one L.ckIndex L.ckPages (h.ckKb * 1024) h.ckCount 7)
     let especs := ((slice d 22 h.especSize).filter (· == 0)).length
     s!"ok ck={h.ckCount} ek={h.ekCount} especs={especs} x={x}"
@@ -139,11 +170,11 @@ def key16? (s : String) : Option Bytes :=
 def mutate (st : St) (d : Bytes) : St × String :=
   match st.kind with
   | "enc" =>
-    match Enc.parse md5H d with
+    match Enc.parse (memoH st.memo md5H) d with
     | .ok (c, e) => ({ st with last := d, lastOk := true }, s!"ok c={c} e={e}")
     | .error e => ({ st with last := d, lastOk := false }, encErr e)
   | "v1" =>
-    match V1.check shaH d with
+    match V1.check (memoH st.memo shaH) d with
     | .checksumErr => ({ st with last := d, lastV1 := "err:checksum" }, "err:checksum")
     | .pass _ none => ({ st with last := d, lastV1 := "none" }, "pass")
     | .pass _ (some c) => ({ st with last := d, lastV1 := hexOf c }, "pass")
@@ -159,19 +190,19 @@ def handle (st : St) : List String → St × String
     | _, _, _ => (st, "bad-op")
   | ["begin", "consts"] => ({ st with kind := "consts" }, "ok")
   | ["consts"] => if st.kind == "consts" then (st, constsStr) else (st, "bad-op")
-  | ["encmap"] => if st.kind == "enc" then (st, encMap st.lastOk st.last) else (st, "bad-op")
+  | ["encmap"] => if st.kind == "enc" then (st, encMap st.memo st.lastOk st.last) else (st, "bad-op")
   | ["fvalid"] =>
     if st.kind != "aidx" && st.kind != "aidxc" then (st, "bad-op") else
     if st.last.length < 28 then (st, "short") else
     (st, if Aidx.isValid md5H (st.last.drop (st.last.length - 28)) then "valid=1" else "valid=0")
   | ["begin", "lhdr", p, hx] =>
     match p.toNat?, parseHex hx with
-    | some p, some b => ({ st with kind := "lhdr", base := b, param := p, last := b, lastOk := false, lastV1 := "none" }, "ok")
+    | some p, some b => ({ st with kind := "lhdr", base := b, param := p, last := b, lastOk := false, lastV1 := "none", memo := [] }, "ok")
     | _, _ => (st, "bad-op")
   | ["begin", kind, hx] =>
     if ["enc", "aidx", "aidxc", "lru", "upd", "seg", "v1"].contains kind then
       match parseHex hx with
-      | some b => ({ st with kind := kind, base := b, param := 0, last := b, lastOk := false, lastV1 := "none" }, "ok")
+      | some b => ({ st with kind := kind, base := b, param := 0, last := b, lastOk := false, lastV1 := "none", memo := memoOf kind b }, "ok")
       | none => (st, "bad-op")
     else (st, "bad-op")
   | ["load"] => if st.kind == "cache" || st.kind == "consts" || st.kind == "" then (st, "bad-op") else mutate st st.base
@@ -275,6 +306,14 @@ def handle (st : St) : List String → St × String
     match key16? c with
     | some c => (st, outStr (Cache.caGet md5H st.ca c))
     | none => (st, "bad-op")
+  | ["getvf", k, c, m, alt] =>
+    if st.kind != "cache" then (st, "bad-op") else
+    match key16? k, key16? c, m.toNat?, parseHex alt with
+    | some k, some c, some m, some alt =>
+      if st.layers.length != 2 || 2 < m then (st, "bad-op") else
+      let (s, o, made) := Cache.getValidatedFault md5H st.cfg st.layers k (some c) m alt
+      ({ st with layers := s }, s!"{outStr o} dreads={made}")
+    | _, _, _, _ => (st, "bad-op")
   | ["cagetf", c, n, mode, alt] =>
     if st.kind != "cache" then (st, "bad-op") else
     match key16? c, n.toNat?, (if mode == "put" then some true else if mode == "once" then some false else none),
